@@ -435,9 +435,11 @@ impl PacketContents {
         self.num_chunks += 1;
     }
     fn can_fit_chunk(&self, data: &[u8], vital: bool) -> bool {
-        // current size + chunk header + chunk length
-        self.data.len() + protocol::chunk_header_size(vital) + data.len()
-            <= MAX_PACKETSIZE - protocol::HEADER_SIZE
+        // The chunk counter in the packet header is 8 bits wide.
+        self.num_chunks < u8::MAX
+            // current size + chunk header + chunk length
+            && self.data.len() + protocol::chunk_header_size(vital) + data.len()
+                <= MAX_PACKETSIZE - protocol::HEADER_SIZE
     }
     fn clear(&mut self) {
         *self = PacketContents::new();
